@@ -182,8 +182,12 @@ def run(case, ctx):
     twins = {k: adapters.build(n, cfg) for k, n, cfg in case["members"]}
     members = {k: Seeded(real[k], k, clock) for k in keys}
     sels = {k: _selector(case["selectors"].get(k), container) for k in keys}
-    ens = ctx.call("C12:ctor", (StreamingEnsemble if stream else BatchEnsemble), members, _make_election(case["election"]),
-                   {k: f for k, f in sels.items() if f is not None})
+    given = {k: f for k, f in sels.items() if f is not None}
+    if given:
+        ens = ctx.call("C12:ctor", (StreamingEnsemble if stream else BatchEnsemble), members, _make_election(case["election"]), given)
+    else:   # no member needs a selector: the ensemble is built the short way
+        ens = ctx.call("C12:ctor", (StreamingEnsemble if stream else BatchEnsemble), members, _make_election(case["election"]))
+        ctx.probe("ensemble_built_without_selectors")
     est = {}
     fresh_member = False
     n_updates = 0
